@@ -901,11 +901,11 @@ func c03Run(r *simkit.Run) {
 
 func init() {
 	simkit.Register(&simkit.Harness{
-		ID:  "C03",
-		Run: c03Run,
-		Real: []string{"isaac voteproof types and constructors", "Voteproof.IsValid", "isaac.IsValidVoteproofWithSuffrage / base.IsValidVoteproofWithSuffrage", "isaac.NewSuffrageWithExpels", "isaac.IsValidExpelWithSuffrage", "isaacstates.Ballotbox (one per honest node)", "isaac.SuffrageVoting on isaacdatabase.TempPool (memory leveldb)", "isaacstates.DefaultBallotStuckResolver with FindMissingBallotsFromBallotboxFunc and VoteSuffrageVotingFunc", "secp256k1 signatures"},
-		Stub: []string{"network (partition groups, loss, delay, duplication, heal; missing-ballot requests answered from what a peer has seen)", "consensus handler (the harness signs each honest node's single ballot per stage point and the next-round INIT ballot with the expels SuffrageVoting.Find returns)", "equivocating nodes (harness)"},
-		Rule: "each run draws a suffrage of 1-7 nodes, a threshold in {67,67.5,70,75,80,90,100}, at most f=floor(n-n*t/100) equivocators. Half of the runs simulate one height: every honest node runs a real Ballotbox, SuffrageVoting and stuck resolver over a network with 1-3 partition groups, loss, delay, duplication and optional heal; equivocators send different facts to different groups and co-sign every expel. The other half builds a history directly (honest nodes sign one of four facts, with or without listed expels). In both, an assembler then builds 30 (thorough 120) candidate voteproofs from the sign facts of the history and expel operations signed by any nodes, including ill-formed ones (duplicate, foreign and wrong-key voters, votes of other points, expired expels, foreign expel signers and targets, too few signers). Every voteproof that passes Voteproof.IsValid and IsValidVoteproofWithSuffrage enters the pool; any two of one stage point with different majority facts are a violation. distinct = event-log hash",
+		ID:          "C03",
+		Run:         c03Run,
+		Real:        []string{"isaac voteproof types and constructors", "Voteproof.IsValid", "isaac.IsValidVoteproofWithSuffrage / base.IsValidVoteproofWithSuffrage", "isaac.NewSuffrageWithExpels", "isaac.IsValidExpelWithSuffrage", "isaacstates.Ballotbox (one per honest node)", "isaac.SuffrageVoting on isaacdatabase.TempPool (memory leveldb)", "isaacstates.DefaultBallotStuckResolver with FindMissingBallotsFromBallotboxFunc and VoteSuffrageVotingFunc", "secp256k1 signatures"},
+		Stub:        []string{"network (partition groups, loss, delay, duplication, heal; missing-ballot requests answered from what a peer has seen)", "consensus handler (the harness signs each honest node's single ballot per stage point and the next-round INIT ballot with the expels SuffrageVoting.Find returns)", "equivocating nodes (harness)"},
+		Rule:        "each run draws a suffrage of 1-7 nodes, a threshold in {67,67.5,70,75,80,90,100}, at most f=floor(n-n*t/100) equivocators. Half of the runs simulate one height: every honest node runs a real Ballotbox, SuffrageVoting and stuck resolver over a network with 1-3 partition groups, loss, delay, duplication and optional heal; equivocators send different facts to different groups and co-sign every expel. The other half builds a history directly (honest nodes sign one of four facts, with or without listed expels). In both, an assembler then builds 30 (thorough 120) candidate voteproofs from the sign facts of the history and expel operations signed by any nodes, including ill-formed ones (duplicate, foreign and wrong-key voters, votes of other points, expired expels, foreign expel signers and targets, too few signers). Every voteproof that passes Voteproof.IsValid and IsValidVoteproofWithSuffrage enters the pool; any two of one stage point with different majority facts are a violation. distinct = event-log hash",
 		Assumptions: []string{"honest nodes sign one ballot fact per stage point and class (plain / suffrage-confirm); any suffrage node may sign any expel", "signature verification of sign facts and expel operations is a trusted primitive of the rule classifier"},
 	})
 }
